@@ -87,7 +87,7 @@ class Ctx:
 
     # ------------------------------------------------------------------ TLC
     def tlc(self, module, cfg=None, env=None, workers=NCPU, timeout=900, simulate=None,
-            depth=None, xmx="6g", xss="64m", extra=None, tag=None, check=True, deadlock=False):
+            depth=None, xmx="6g", xss="64m", extra=None, tag=None, check=True, deadlock=False, seed=None):
         """Run TLC on spec/<module>.tla.  cfg: text of the .cfg (or None to use <module>.cfg).
         Returns dict(exit, generated, distinct, out, coverage)."""
         tag = tag or module
@@ -101,7 +101,7 @@ class Ctx:
         if xss:
             cmd.append(f"-Xss{xss}")
         cmd += ["-cp", TLAJAR, "tlc2.TLC", "-workers", str(workers), "-metadir", md,
-                "-config", cfgpath, "-noGenerateSpecTE", "-seed", str(self.seed)]
+                "-config", cfgpath, "-noGenerateSpecTE", "-seed", str(self.seed if seed is None else seed)]
         if not deadlock:
             cmd.append("-deadlock")
         if simulate:
@@ -156,7 +156,7 @@ class Ctx:
     def tlc_emit(self, module, cfg=None, env=None, **kw):
         """Run a generator spec that appends JSON lines (as TLA+ strings) to $OUT. Returns the
         decoded records."""
-        out = os.path.join(self.work, f"emit_{module}_{len(self.tlc_runs)}.ndjson")
+        out = os.path.join(self.work, f"emit_{kw.get('tag') or module}_{len(self.tlc_runs)}.ndjson")
         if os.path.exists(out):
             os.unlink(out)
         e = dict(env or {})
